@@ -129,6 +129,41 @@ theorem refused_starttls_does_not_unlock_login (c : Conn) (user pass host : Byte
   rw [ht, hn, hflag, startTLS_serverName]
   exact login_refuses_cleartext user pass host c.serverName c'.auth hl
 
+/-- **`isEncrypted` tells the truth.** What Client.tls reports to Client.auth as "the connection is
+    encrypted" (the flag auto-discovery relies on) is true only if the connection's `tls` flag is set -
+    provided the flag it starts from is (the dial passes "the library's own TLS dialer was used").
+    In particular `WithSSL` alone (`useSSL`), on a connection the caller's dial function handed out
+    without TLS, does not make it true. -/
+theorem isEncrypted_only_with_tls (cfg : DialCfg) (c : Conn) (e : Bool) (h0 : e = true → c.tls = true)
+    (hn : (clientTLS cfg c e).2.2 = none) (he : (clientTLS cfg c e).2.1 = true) :
+    (clientTLS cfg c e).1.tls = true := by
+  revert hn he
+  unfold clientTLS
+  simp only []
+  repeat' split
+  all_goals (intro hn he; first | exact h0 he | (simp at hn; done) | (simp at he; done) | simp_all)
+
+/-- the connection smtp.NewClient is given carries the flag of the dial: set exactly when the library's
+    TLS dialer made the connection (`implicitTLS`), not when `WithSSL` was merely switched on -/
+theorem newClient_tls_flag (cfg : DialCfg) (script : List Act) (caps : List Bytes) :
+    (newClient cfg script caps).1.tls = cfg.implicitTLS := by
+  unfold newClient
+  have h1 : (freshConn cfg script caps).updateDeadline.1.tls = cfg.implicitTLS := by
+    unfold Conn.updateDeadline freshConn
+    split <;> rfl
+  have h2 := ts_serverTurn (freshConn cfg script caps).updateDeadline.1 .greeting 220
+  rcases hr : (freshConn cfg script caps).updateDeadline.1.serverTurn .greeting 220 with ⟨c1, r⟩
+  rw [hr] at h2
+  cases r with
+  | error e => exact ((ts_close c1).1.trans h2.1).trans h1
+  | ok v => exact h2.1.trans h1
+
+/-- non-vacuity / the case of the ninth round: WithSSL on a caller's clear-text connection, a server that
+    offers only PLAIN and LOGIN: auto-discovery finds nothing it may use, no AUTH command is sent -/
+example :
+    (dial { host := sb "localhost", useSSL := true, implicitTLS := false, authType := .autoDiscover, user := sb "u", pass := sb "secret" }
+      [.ok, .ok, .ok] [sb "AUTH PLAIN LOGIN"]).2 = some .authNotSupported := by decide
+
 /-- non-vacuity: STARTTLS answered 454, then Auth(PlainAuth) for mail.example: refused, nothing but the
     EHLO, STARTTLS and QUIT dialogue on the wire -/
 example :
